@@ -228,6 +228,7 @@ func main() {
 	genConsts(repo, root, out)
 	genFacts(repo, root, out)
 	genLocks(root, out)
+	genAdaptorFacts(repo, out)
 	genC22(repo, root, out)
 	genResets(root, out)
 	genWpRegions(root, out)
